@@ -1758,6 +1758,15 @@ pub fn generate(ctx: &mut Ctx) {
             lo = hi;
         }
     }
+    // part 3: children prototypes on acyclic taxonomies (several seeds per graph)
+    let mut prng = Rng::new(rng.next());
+    let n = ctx.n(160, 2500);
+    for i in 0..n {
+        let g = gen_graph(&mut prng, if i % 7 == 6 { 30 } else { 10 });
+        let mut t = vec!["p".to_string(), (prng.next() % 1_000_000).to_string(), "g".to_string()];
+        write_rows(&g.rows, &mut t);
+        ctx.case(&format!("protos:{i}"), &t.join(" "));
+    }
 }
 
 fn emit_graph_case(ctx: &mut Ctx, rng: &mut Rng, label: &str, rows: &[RowSpec]) {
@@ -2054,6 +2063,271 @@ pub fn zinc_db() -> &'static ZincDb {
     })
 }
 
+// ------------------------------------------------------------------------------------------------
+// part 3: `protos` (children prototypes)
+// ------------------------------------------------------------------------------------------------
+/// the values `protos` cases are made of; the index is the value's token for the model (0 = Null)
+fn proto_value_pool() -> Vec<Value> {
+    vec![
+        Value::Null,
+        Value::Marker,
+        Value::make_number(1.0),
+        Value::make_number(2.5),
+        Value::make_str("a"),
+        Value::make_str("b c"),
+        Value::make_bool(true),
+        Value::make_symbol("sym"),
+    ]
+}
+/// how the pool's values are spelled in a `children` line (`key` alone is a Marker)
+fn proto_zinc(key: &str, tok: usize) -> String {
+    match tok {
+        1 => key.to_string(),
+        2 => format!("{key}:1"),
+        3 => format!("{key}: 2.5"),
+        4 => format!("{key}:\"a\""),
+        5 => format!("{key}:\"b c\""),
+        6 => format!("{key}:T"),
+        _ => format!("{key}:^sym"),
+    }
+}
+fn proto_token(pool: &[Value], v: &Value) -> Option<usize> {
+    pool.iter().position(|x| x == v)
+}
+type PD = BTreeMap<String, usize>;
+fn pd_dict(pool: &[Value], d: &PD) -> Dict {
+    let mut out = Dict::new();
+    for (k, t) in d {
+        out.insert(k.clone(), pool[*t].clone());
+    }
+    out
+}
+fn pd_show(d: &PD) -> String {
+    format!("{{{}}}", d.iter().map(|(k, t)| format!("{}:{t}", vx::h(k))).collect::<Vec<_>>().join(","))
+}
+fn pd_tokens(d: &PD, t: &mut Vec<String>) {
+    t.push(d.len().to_string());
+    for (k, v) in d {
+        t.push(vx::h(k));
+        t.push(v.to_string());
+    }
+}
+struct ProtoSpec {
+    /// `None`: a `children` tag that is neither a Str nor a List
+    children: Option<Vec<PD>>,
+    flatten: Vec<String>,
+}
+
+/// `p <seed> g <rows>`: defs of the (acyclic) graph get `children` / `childrenFlatten` tags derived from the seed,
+/// parents are made from the def names; `protos(parent)` is compared, as a set of dicts, with an oracle written from
+/// the documentation of the two tags and with the model
+fn exec_protos(seed: u64, rows: &[RowSpec], out: &mut CaseOut) {
+    let o = Oracle::new(rows);
+    if !o.on_cycle().is_empty() || o.is.is_empty() {
+        return;
+    }
+    out.nontrivial = true;
+    let mut rng = Rng::new(seed);
+    let pool = proto_value_pool();
+    let defined: Vec<String> = o.is.keys().cloned().collect();
+    let is_id = |s: &str| s.chars().next().map_or(false, |c| c.is_ascii_lowercase()) && s.chars().all(|c| c.is_ascii_alphanumeric());
+    let mut id_keys: Vec<String> = defined.iter().filter(|s| is_id(s)).cloned().collect();
+    id_keys.extend(["dis", "fan", "x1"].iter().map(|s| s.to_string()));
+    let any_keys: Vec<String> = defined.iter().cloned().chain(["dis", "not a name", ""].iter().map(|s| s.to_string())).collect();
+    // --- which defs have children, and what they are ---------------------------------------------
+    let mut specs: BTreeMap<String, ProtoSpec> = BTreeMap::new();
+    let mut extra_tags: BTreeMap<String, Vec<(String, Value)>> = BTreeMap::new();
+    let n_specs = 1 + rng.below(4);
+    for _ in 0..n_specs {
+        let name = rng.pick(&defined).clone();
+        if specs.contains_key(&name) {
+            continue;
+        }
+        let mut tags: Vec<(String, Value)> = Vec::new();
+        let n_children = rng.below(4) as usize;
+        let mut gen_pd = |rng: &mut Rng, keys: &[String], lo: usize| -> PD {
+            let mut d = PD::new();
+            for _ in 0..(1 + rng.below(3)) {
+                d.insert(rng.pick(keys).clone(), lo + rng.below((8 - lo) as u64) as usize);
+            }
+            d
+        };
+        let children: Option<Vec<PD>> = match rng.below(7) {
+            0 => {
+                // neither a Str nor a List
+                tags.push(("children".into(), if rng.chance(1, 2) { Value::make_number(3.0) } else { Value::Marker }));
+                out.stat("protos_children_other");
+                None
+            }
+            1 | 2 | 3 => {
+                // a List: Dict items count (an empty Dict too), anything else is passed over
+                let mut items = Vec::new();
+                let mut cs = Vec::new();
+                for i in 0..n_children {
+                    if rng.chance(1, 4) {
+                        items.push(if i % 2 == 0 { Value::make_str("x:1") } else { Value::Marker });
+                    }
+                    let d = if rng.chance(1, 8) { PD::new() } else { gen_pd(&mut rng, &any_keys, 0) };
+                    items.push(Value::make_dict(pd_dict(&pool, &d)));
+                    cs.push(d);
+                }
+                tags.push(("children".into(), Value::make_list(items)));
+                out.stat("protos_children_list");
+                Some(cs)
+            }
+            _ => {
+                // a Str: one dict per line; blank lines, comments and lines that do not decode are passed over
+                let mut lines: Vec<String> = Vec::new();
+                let mut cs = Vec::new();
+                for _ in 0..n_children {
+                    match rng.below(8) {
+                        0 => lines.push(String::new()),
+                        1 => lines.push("// fan:1".into()),
+                        2 => lines.push("  ".into()),
+                        3 => lines.push(rng.pick(&["fan:", "1fan", "fan:\"open", "{fan}", ":"]).to_string()),
+                        _ => {}
+                    }
+                    let d = gen_pd(&mut rng, &id_keys, 1);
+                    let body = d.iter().map(|(k, t)| proto_zinc(k, *t)).collect::<Vec<_>>().join(if rng.chance(1, 2) { " " } else { ", " });
+                    lines.push(format!("{}{body}{}", if rng.chance(1, 3) { "  " } else { "" }, if rng.chance(1, 3) { " \t" } else { "" }));
+                    cs.push(d);
+                }
+                tags.push(("children".into(), Value::make_str(&lines.join("\n"))));
+                out.stat("protos_children_str");
+                Some(cs)
+            }
+        };
+        // childrenFlatten: a list of symbols (other items are passed over), or not a list at all
+        let mut flatten: Vec<String> = Vec::new();
+        match rng.below(6) {
+            0 => {}
+            1 => tags.push(("childrenFlatten".into(), Value::make_symbol(rng.pick(&defined[..]).as_str()))),
+            _ => {
+                let mut items = Vec::new();
+                for i in 0..(1 + rng.below(3)) {
+                    if rng.chance(1, 5) {
+                        items.push(if i % 2 == 0 { Value::make_str(rng.pick(&defined[..]).as_str()) } else { Value::Null });
+                    } else {
+                        let s = if rng.chance(1, 8) { "neverDefined".to_string() } else { rng.pick(&defined).clone() };
+                        items.push(Value::make_symbol(&s));
+                        flatten.push(s);
+                    }
+                }
+                tags.push(("childrenFlatten".into(), Value::make_list(items)));
+                out.stat("protos_flatten_list");
+            }
+        }
+        extra_tags.insert(name.clone(), tags);
+        specs.insert(name, ProtoSpec { children, flatten });
+    }
+    // --- the namespace: every row of a chosen def carries the tags --------------------------------
+    let dicts: Vec<Dict> = rows
+        .iter()
+        .map(|r| {
+            let mut d = r.to_dict();
+            if let (Some(n), _) = r.model_view() {
+                if let Some(tags) = extra_tags.get(&n) {
+                    for (k, v) in tags {
+                        d.insert(k.clone(), v.clone());
+                    }
+                }
+            }
+            d
+        })
+        .collect();
+    let ns: &'static Namespace<'static> = Box::leak(Box::new(Namespace::make(Grid::make_from_dicts(dicts))));
+    // --- parents --------------------------------------------------------------------------------
+    let spec_names: Vec<String> = specs.keys().cloned().collect();
+    let mut parents: Vec<PD> = Vec::new();
+    for _ in 0..(3 + rng.below(3)) {
+        let mut d = PD::new();
+        if rng.chance(5, 6) {
+            d.insert(rng.pick(&spec_names).clone(), rng.below(8) as usize);
+        }
+        for _ in 0..rng.below(5) {
+            let k = if rng.chance(1, 6) { rng.pick(&any_keys).clone() } else { rng.pick(&defined).clone() };
+            d.insert(k, if rng.chance(1, 5) { 0 } else { rng.below(8) as usize });
+        }
+        parents.push(d);
+    }
+    parents.push(PD::new());
+    // --- the real function, the oracle --------------------------------------------------------------
+    let mut replies = Vec::new();
+    for parent in &parents {
+        let pdict = pd_dict(&pool, parent);
+        let got = ns.protos(&pdict);
+        let mut got_pd: Vec<String> = Vec::new();
+        for g in &got {
+            let mut d = PD::new();
+            for (k, v) in g.iter() {
+                match proto_token(&pool, v) {
+                    Some(t) => {
+                        d.insert(k.clone(), t);
+                    }
+                    None => out.fail("protos_value", format!("a prototype of {pdict:?} holds {v:?} under {k:?}: neither the parent's nor a child's value")),
+                }
+            }
+            got_pd.push(pd_show(&d));
+        }
+        got_pd.sort();
+        let n = got_pd.len();
+        got_pd.dedup();
+        if got_pd.len() != n {
+            out.fail("protos_repeated", format!("protos({pdict:?}) hands out the same prototype twice: {got:?}"));
+        }
+        // documentation: the children of the defs the parent's tags name, each with the parent's non-Null values of
+        // the tags that fit a `childrenFlatten` symbol
+        let mut want: BTreeSet<String> = BTreeSet::new();
+        for name in parent.keys() {
+            let Some(spec) = specs.get(name) else { continue };
+            let Some(cs) = &spec.children else { continue };
+            let flat: Vec<(&String, usize)> =
+                parent.iter().filter(|(k, t)| **t != 0 && spec.flatten.iter().any(|s| o.fits(k, s))).map(|(k, t)| (k, *t)).collect();
+            for c in cs {
+                let mut d = c.clone();
+                for (k, t) in &flat {
+                    d.insert((*k).clone(), *t);
+                }
+                want.insert(pd_show(&d));
+            }
+            if !flat.is_empty() && !cs.is_empty() {
+                out.stat("protos_flattened_value");
+            }
+        }
+        let want: Vec<String> = want.into_iter().collect();
+        if want != got_pd {
+            out.fail("protos_spec", format!("protos({pdict:?}) = {got_pd:?}, the children and flattened values say {want:?}"));
+        }
+        out.stat(match got_pd.len() { 0 => "protos_0", 1 => "protos_1", 2..=3 => "protos_2-3", _ => "protos_4+" });
+        replies.push(got_pd.join("|"));
+    }
+    // --- the model ----------------------------------------------------------------------------------
+    let mut t = vec![specs.len().to_string()];
+    for (name, spec) in &specs {
+        t.push(vx::h(name));
+        match &spec.children {
+            Some(cs) => {
+                t.push("1".into());
+                t.push(cs.len().to_string());
+                for c in cs {
+                    pd_tokens(c, &mut t);
+                }
+            }
+            None => {
+                t.push("0".into());
+                t.push("0".into());
+            }
+        }
+        write_names(&spec.flatten, &mut t);
+    }
+    t.push(parents.len().to_string());
+    for p in &parents {
+        pd_tokens(p, &mut t);
+    }
+    out.req(format!("C13 protos {} {}", model_graph_tokens(rows), t.join(" ")), format!("ok {}", replies.join(";")));
+    unsafe { free_ns(ns) };
+}
+
 pub fn exec(label: &str, input: &str, out: &mut CaseOut) {
     let mut rd = vx::Rd::new(input);
     match rd.tok() {
@@ -2126,6 +2400,20 @@ pub fn exec(label: &str, input: &str, out: &mut CaseOut) {
                 run_part2(&rows, ns, &q2, &recs, rel.as_ref(), true, out);
             }
             unsafe { free_ns(ns) };
+        }
+        Some("p") => {
+            let parsed = (|| {
+                let seed = rd.num::<u64>()?;
+                if rd.tok()? != "g" {
+                    return None;
+                }
+                Some((seed, read_rows(&mut rd)?))
+            })();
+            let Some((seed, rows)) = parsed else {
+                out.fail("harness", "unparsable C13 protos input".into());
+                return;
+            };
+            exec_protos(seed, &rows, out);
         }
         Some("zinc") => {
             let parsed = (|| Some((rd.num::<usize>()?, rd.num::<usize>()?, rd.num::<u64>()?, rd.num::<u64>()?)))();
